@@ -490,8 +490,11 @@ def shift_value_rule(ctx, R, L, sem):
         f = L.mnemo_func.get(name)
         if f is None:
             raise AnalysisError('ia32_sem.mnemo_func has no %r' % name)
-        for w in (32, 16, 8):
+        for w, same in ((32, False), (16, False), (8, False), (32, True), (16, True)):
+            # same: the double shifts with one register named twice (shld eax, eax, n), which a lifter may tell apart
             if name in ('shld', 'shrd') and w == 8:
+                continue
+            if same and name not in ('shld', 'shrd'):
                 continue
             dst = ebx if w == 32 else TSlice(ebx, 0, w)
             src2 = edx if w == 32 else TSlice(edx, 0, w)
@@ -506,14 +509,14 @@ def shift_value_rule(ctx, R, L, sem):
                 for a in vals:
                     for cf in (0, 1):
                         val = {'ebx': a, 'edx': 0x80000001, 'ecx': 0, 'cf': cf, 'pf': 0, 'af': 0, 'zf': 0, 'nf': 0, 'of': 0}
-                        args = [dst, cterm] if name not in ('shld', 'shrd') else [dst, src2, cterm]
+                        args = [dst, cterm] if name not in ('shld', 'shrd') else [dst, dst if same else src2, cterm]
                         try:
                             outs = lifted_effect(I, f, args, val, 'u32' if w != 16 else 'u16')
                         except LiftUnknown as e:
                             raise AnalysisError('%s is outside the modelled subset: %s' % (name, e))
                         except Refuse as e:
                             raise AnalysisError('%s: lifted assignments outside the evaluable subset: %s' % (name, e))
-                        r, c, of_ = shift_ref(name, w, a, 0x80000001, cnt, cf)
+                        r, c, of_ = shift_ref(name, w, a, a if same else 0x80000001, cnt, cf)
                         if r is None:
                             continue
                         n_vec += 1
@@ -530,10 +533,10 @@ def shift_value_rule(ctx, R, L, sem):
                                 prob = 'ZF/SF/PF %s, IA-32 %s' % ((got['zf'], got['nf'], got['pf']), (int(r == 0), r >> (w - 1), par(r)))
                             if prob and bad is None:
                                 bad = (cnt, a, cf, prob)
-            inst = 'shift-value:%s:%d' % (name, w)
+            inst = 'shift-value:%s:%d%s' % (name, w, ':same-register' if same else '')
             if bad:
                 cnt, a, cf, prob = bad
-                R.violation(inst, 'shift-value:%s:%d:%s' % (name, w, prob.split()[0]), '%s of the %d-bit operand %#x by %d (CF = %d): %s' % (name, w, a, cnt, cf, prob), where(sem, f.node),
+                R.violation(inst, 'shift-value:%s:%d:%s%s' % (name, w, prob.split()[0], ':same' if same else ''), '%s of the %d-bit operand %#x%s by %d (CF = %d): %s' % (name, w, a, ' (both operands one register)' if same else '', cnt, cf, prob), where(sem, f.node),
                             witness='%s on %#x by %d' % (name, a, cnt))
             else:
                 R.ok(inst, sample='%s %d-bit: %d vectors agree with the IA-32 definition' % (name, w, n_vec))
